@@ -14,7 +14,11 @@ S == 5                                       \* first wire id of the batch
 
 VARIABLES c, phase
 vars == <<c, phase>>
-Cases == UNION {{[n |-> n, reply |-> r] : r \in UNION {[1..k -> (S - 1)..(S + n)] : k \in 0..MaxReply}} : n \in 1..MaxN}
+(* `undec`: the position of the one reply element whose result does not decode into the caller's result type R (0: every    *)
+(* result decodes).  Error objects are not decoded; by the replay's convention every third element is an error object.         *)
+Replies(n) == UNION {[1..k -> (S - 1)..(S + n)] : k \in 0..MaxReply}
+Cases == UNION {UNION {{[n |-> n, reply |-> r, undec |-> u] : u \in 0..Len(r)} : r \in Replies(n)} : n \in 1..MaxN}
+IsErrorObject(p) == p % 3 = 0
 Init == c \in Cases /\ phase = "new"
 Next == phase = "new" /\ phase' = "done" /\ c' = c
 
@@ -26,19 +30,26 @@ LastPos(x, id) == CHOOSE i \in {j \in 1..Len(x.reply) : x.reply[j] = id} : \A j 
 (* the async client: tokens are reply positions; -1 = placeholder error *)
 Min(s) == CHOOSE a \in s : \A b \in s : a <= b
 Max(s) == CHOOSE a \in s : \A b \in s : a >= b
-Strict(x) ==
+Routed(x) ==
   IF x.reply = <<>> THEN [k |-> "fail"]                                   \* empty array: EmptyBatchRequest
   ELSE IF Min(Ids(x)) = S /\ Max(Ids(x)) = S + x.n - 1
     THEN [k |-> "ok", slots |-> [i \in 1..x.n |-> IF (S + i - 1) \in Ids(x) THEN LastPos(x, S + i - 1) ELSE -1]]
     ELSE [k |-> "fail"]                                                    \* range matches no pending batch: the connection is abandoned
+(* the element that ends up in a slot is decoded into R (mod.rs:596-608): one that does not decode fails the whole call *)
+UsesUndecodable(x, o) == o.k = "ok" /\ x.undec > 0 /\ ~IsErrorObject(x.undec) /\ \E i \in 1..x.n : o.slots[i] = x.undec
+Strict(x) == IF UsesUndecodable(x, Routed(x)) THEN [k |-> "fail"] ELSE Routed(x)
 
 (* the property: is outcome o acceptable for case x *)
 SlotOk(x, i, t) == t = -1 \/ (t \in 1..Len(x.reply) /\ x.reply[t] = S + i - 1)
+(* a slot never shows the value of an element that does not decode: the entry is an error (-1) or the whole call fails *)
+NoUndecodedValue(x, o) == x.undec > 0 /\ ~IsErrorObject(x.undec) => \A i \in 1..x.n : o.slots[i] # x.undec
 Acceptable(x, o) ==
-  IF IsPermutation(x) THEN o.k = "ok" /\ \A i \in 1..x.n : o.slots[i] \in 1..Len(x.reply) /\ x.reply[o.slots[i]] = S + i - 1
-  ELSE o.k = "fail" \/ (Len(o.slots) = x.n /\ \A i \in 1..x.n : SlotOk(x, i, o.slots[i]))
+  IF IsPermutation(x) /\ ~(x.undec \in 1..Len(x.reply) /\ ~IsErrorObject(x.undec))
+    THEN o.k = "ok" /\ \A i \in 1..x.n : o.slots[i] \in 1..Len(x.reply) /\ x.reply[o.slots[i]] = S + i - 1
+    ELSE o.k = "fail" \/ (Len(o.slots) = x.n /\ NoUndecodedValue(x, o) /\ \A i \in 1..x.n : SlotOk(x, i, o.slots[i]))
 
 Inv_StrictIsAcceptable == Acceptable(c, Strict(c))
 Emit == (EmitCases /\ phase = "done") =>
-  PrintT(<<"REPLAY", ToJson([n |-> c.n, start |-> S, reply |-> c.reply, strict |-> Strict(c), permutation |-> IsPermutation(c)])>>)
+  PrintT(<<"REPLAY", ToJson([n |-> c.n, start |-> S, reply |-> c.reply, undec |-> c.undec, strict |-> Strict(c),
+                               permutation |-> (IsPermutation(c) /\ ~(c.undec \in 1..Len(c.reply) /\ ~IsErrorObject(c.undec)))])>>)
 ================================================================================
